@@ -173,3 +173,74 @@ def mdl_closed_form(fstr, labels, nparam, x, y, sig):
 def nparams_of(fstr):
     idx = [int(m) for m in re.findall(r"\ba(\d+)\b", fstr)]
     return max(idx) + 1 if idx else 0
+
+
+def mdl_numeric(fstr, labels, nparam, x, y, sig, theta0):
+    """Independent description length of ANY tree with 1-2 parameters, given a good starting point (the planted parameters):
+    ML parameters by Nelder-Mead + Newton refinement on the independent likelihood, Hessian by high-precision differentiation,
+    then the MDL snapping rule and code-length formula.  Returns None unless the optimum is certified
+    (gradient ~ 0 and positive definite Hessian)."""
+    import mpmath as mp
+    from scipy.optimize import minimize
+    if not 1 <= nparam <= 2:
+        return None
+    xs = [mp.mpf(float(v)) for v in x]
+    ys = [mp.mpf(float(v)) for v in y]
+    ss = [mp.mpf(float(v)) for v in sig]
+    const = sum(mp.log(2 * mp.pi) / 2 + mp.log(s) for s in ss)
+
+    def nll_mp(*th):
+        tot = mp.mpf(0)
+        for xi, yi, si in zip(xs, ys, ss):
+            f = lo.eval_string(fstr, xi, list(th) + [mp.mpf(0)] * 4)
+            tot += (f - yi) ** 2 / (2 * si ** 2)
+        return tot + const
+
+    def nll_f(th):
+        try:
+            return float(nll_mp(*[mp.mpf(float(t)) for t in th]))
+        except lo.Undefined:
+            return 1e300
+    try:
+        r = minimize(nll_f, np.array(theta0, float), method="Nelder-Mead", options={"xatol": 1e-10, "fatol": 1e-12, "maxiter": 4000})
+        th = [mp.mpf(float(t)) for t in r.x]
+        for _ in range(6):      # Newton polish
+            g = [mp.diff(nll_mp, th, tuple(1 if j == i else 0 for j in range(nparam))) for i in range(nparam)]
+            H = mp.matrix(nparam, nparam)
+            for i in range(nparam):
+                for j in range(nparam):
+                    d = [0] * nparam
+                    d[i] += 1
+                    d[j] += 1
+                    H[i, j] = mp.diff(nll_mp, th, tuple(d))
+            step = mp.lu_solve(H, mp.matrix(g))
+            th = [t - s for t, s in zip(th, step)]
+        g = [mp.diff(nll_mp, th, tuple(1 if j == i else 0 for j in range(nparam))) for i in range(nparam)]
+        H = mp.matrix(nparam, nparam)
+        for i in range(nparam):
+            for j in range(nparam):
+                d = [0] * nparam
+                d[i] += 1
+                d[j] += 1
+                H[i, j] = mp.diff(nll_mp, th, tuple(d))
+        if max(abs(v) for v in g) > mp.mpf(10) ** -8 * (1 + abs(nll_mp(*th))):
+            return None
+        if nparam == 1:
+            if H[0, 0] <= 0:
+                return None
+        elif not (H[0, 0] > 0 and H[0, 0] * H[1, 1] - H[0, 1] * H[1, 0] > 0):
+            return None
+        I = [float(H[i, i]) for i in range(nparam)]
+        theta = [float(t) for t in th]
+        nsteps = [abs(t) * math.sqrt(i / 12.0) for t, i in zip(theta, I)]
+        kept = [s >= 1 for s in nsteps]
+        th2 = [t if k else 0.0 for t, k in zip(theta, kept)]
+        nll = nll_f(th2)
+        if not math.isfinite(nll) or nll > 1e200:
+            return None       # the subset search of the code applies here; not judged
+        k = sum(kept)
+        codelen = -k / 2.0 * math.log(3.0) + sum(0.5 * math.log(i) + math.log(abs(t)) for t, i, kp in zip(theta, I, kept) if kp) if k else 0.0
+        a = aifeyn_of(labels)
+        return {"theta": th2, "theta_ml": theta, "nll": nll, "codelen": codelen, "aifeyn": a, "DL": nll + codelen + a, "kept": kept, "I": I}
+    except (lo.Undefined, ZeroDivisionError, OverflowError, ValueError, TypeError):
+        return None
